@@ -159,7 +159,7 @@ class Check:
             if kind == "unsearchable":
                 # the directory can be read but not searched (r--): its entries are listed, but every access *through* it
                 # (lstat, realpath, opendir, open of a child) is refused
-                kids = [n["path"] for n in world["nodes"] if n["path"].rsplit("/", 1)[0] == d]
+                kids = [n["path"] for n in world["nodes"] if "/" in n["path"] and n["path"].rsplit("/", 1)[0] == d]
                 for c in kids:
                     for call in ("stat", "realpath", "opendir", "open"):
                         faults.append({"fail": {"call": call, "path": c, "errno": "EACCES"}, "unsearchable_parent": d})
@@ -562,6 +562,10 @@ class Check:
                     viols.append(Violation(PROP, "C17.A.status", ["C17.A", "status_not_1", fkind, shape],
                                            {"query": q, "faults": case["faults"], "failed_dirs": sorted(failed | mid), "status": res.status, "stderr": res.stderr[:300].decode("utf-8", "replace")}))
                 for d in sorted(failed | mid):
+                    # a directory below another unlistable one cannot be known to the walk (its failure may have been seen
+                    # by a canonicalisation that started elsewhere, e.g. of a link leading to it)
+                    if any(d.startswith(a_ + "/") for a_ in failed | mutated | mid):
+                        continue
                     # the path as walked: root spelling + relative part
                     names = []
                     for r in roots:
